@@ -107,20 +107,32 @@ func c18PipeBurstCtx(t *testing.T, out *vhOut, rng *rand.Rand, useTLS bool, k, n
 	}
 	defer conn.Close()
 	out.Emit(map[string]any{"ev": "Reset", "k": k, "n": n, "tls": useTLS})
-	var burst []byte
+	var burst, late []byte
 	for q := 1; q <= n; q++ {
 		m := new(dns.Msg).SetQuestion(fmt.Sprintf("q%d.example.", q), dns.TypeA)
 		m.Id = uint16(1000 + q)
 		b, _ := m.Pack()
+		if ctxTimeout > 0 && q > k {
+			// sent only after the request contexts of the first k have expired
+			late = binary.BigEndian.AppendUint16(late, uint16(len(b)))
+			late = append(late, b...)
+			continue
+		}
 		burst = binary.BigEndian.AppendUint16(burst, uint16(len(b)))
 		burst = append(burst, b...)
-	}
-	if _, err = conn.Write(burst); err != nil {
-		t.Fatal(err)
 	}
 	g.mu.Lock()
 	out.Emit(map[string]any{"ev": "Send", "n": n})
 	g.mu.Unlock()
+	if _, err = conn.Write(burst); err != nil {
+		t.Fatal(err)
+	}
+	if len(late) > 0 {
+		time.Sleep(ctxTimeout + 100*time.Millisecond)
+		if _, err = conn.Write(late); err != nil {
+			t.Fatal(err)
+		}
+	}
 	// reader of responses
 	answered := map[uint16]int{}
 	rdone := make(chan struct{})
